@@ -122,6 +122,9 @@ def full_state(sk, kind):
 
 def run_case(case):
     cfg = case["cfg"]
+    from vf.world import reset_interference
+
+    reset_interference()
     kind = cfg["kind"]
     log = kind in ("log8", "log16")
     A, B, C = (sut(make_sketch, cfg) for _ in range(3))
